@@ -1,3 +1,4 @@
 """imports every rule module so that the rules register themselves"""
 import rules_c01
 import rules_c04
+import rules_incr
